@@ -77,10 +77,11 @@ def gen(rng, sid, max_payload, ndg):
                 seq.append({'id': f0['id'], 'src': a, 'dst': b, 'proto': 253, 'ttl': rng.randrange(1, 256), 'tos': 0, 'df': rng.randrange(2),
                             'mf': 0, 'off': 0, 'pl': bytes(rng.randrange(256) for _ in range(rng.choice([1, 8, 20])))})
     rng.shuffle(seq)
-    # some packets arrive in frames with octets behind the IP total length (Ethernet minimum-size padding, trailers)
+    # some packets arrive in frames with octets behind the IP total length (Ethernet minimum-size padding, trailers), some with the
+    # reserved flag bit set (token >= 1000): neither says anything about fragmentation
     trailer = rng.random() < 0.4
     lines = ['pkt %d %d %d %d %d %d %d %d %d x%s' % (f['id'], f['src'], f['dst'], f['proto'], f['ttl'], f['tos'], f['df'], f['mf'], f['off'], f['pl'].hex())
-             + ((' %d' % rng.choice([1, 6, 18, 26])) if trailer and rng.random() < 0.5 else '') for f in seq]
+             + ((' %d' % (rng.choice([0, 1, 6, 18, 26]) + (1000 if rng.random() < 0.3 else 0))) if trailer and rng.random() < 0.5 else '') for f in seq]
     return (sid, lines)
 
 
